@@ -86,6 +86,12 @@ pub fn check(runs: &mut usize, fails: &mut Vec<Failure>) {
         ("strong equivalence: files of other roles among the arguments do not change which .lp file is left and which is right", strong,
             vec![("in/m.lp", A), ("in/n.lp", B), ("in/s.spec", SPEC), ("in/g.ug", UG), ("in/o.po", PO), ("in/t.txt", "p."), ("in/d/m.lp", A), ("in/d/n.lp", B), ("in/d/s.spec", SPEC), ("in/d/g.ug", UG), ("in/d/a.txt", "p.")],
             vec![vec!["m.lp", "n.lp"], vec!["s.spec", "m.lp", "n.lp"], vec!["m.lp", "s.spec", "n.lp"], vec!["m.lp", "n.lp", "g.ug", "s.spec", "o.po"], vec!["g.ug", "m.lp", "t.txt", "n.lp"], vec!["d"], vec!["o.po", "m.lp", "n.lp", "s.spec"]]),
+        ("strong equivalence: a path given twice counts twice (the copy under another name gives the same problems)", strong,
+            vec![("in/m.lp", A), ("in/mcopy.lp", A), ("in/n.lp", B), ("in/d/m.lp", A), ("in/d/n.lp", B), ("in/e/m.lp", A), ("in/e/m2.lp", A), ("in/e/n.lp", B)],
+            vec![vec!["m.lp", "mcopy.lp", "n.lp"], vec!["m.lp", "m.lp", "n.lp"], vec!["d/m.lp", "d"], vec!["e"], vec!["m.lp", "m.lp"]]),
+        ("external equivalence: a path given twice counts twice", ext,
+            vec![("in/m.lp", A), ("in/mcopy.lp", A), ("in/n.lp", B), ("in/g.ug", UG), ("in/d/m.lp", A), ("in/d/n.lp", B)],
+            vec![vec!["m.lp", "mcopy.lp", "n.lp", "g.ug"], vec!["m.lp", "m.lp", "n.lp", "g.ug"], vec!["d/m.lp", "d", "g.ug"], vec!["g.ug", "m.lp", "m.lp"]]),
         ("program against specification: the first .lp file is the program, a later one changes nothing", ext,
             vec![("in/prog.lp", A), ("in/later.lp", B), ("in/s.spec", SPEC), ("in/g.ug", UG), ("in/o.po", PO), ("in/d/a_prog.lp", A), ("in/d/b_later.lp", B), ("in/d/s.spec", SPEC), ("in/d/g.ug", UG), ("in/d/o.po", PO)],
             vec![vec!["prog.lp", "s.spec", "g.ug", "o.po"], vec!["prog.lp", "later.lp", "s.spec", "g.ug", "o.po"], vec!["s.spec", "prog.lp", "g.ug", "o.po", "later.lp"], vec!["d"], vec!["g.ug", "o.po", "prog.lp", "s.spec", "later.lp"]]),
